@@ -5,6 +5,7 @@
 #include "harness/iofmt.hpp"
 #include "simulation_initializer.hpp"
 #include "initial_triangulation.hpp"
+#include <regex>
 
 using namespace hz;
 
@@ -158,6 +159,20 @@ RunResult run_w17(const Plan& pl) {
     std::string dir = g_scratch + "/w17"; mkdir(dir.c_str(), 0700); std::string vp = dir + "/m.vtk", xp = dir + "/p.xml", out = g_scratch + "/out17";
     auto sub = [&](std::string s) { size_t p; while ((p = s.find("@MESH@")) != std::string::npos) s.replace(p, 6, vp); while ((p = s.find("@OUT@")) != std::string::npos) s.replace(p, 5, out); return s; };
     spit(vp, vtk); spit(xp, sub(xml));
+    // a well-formed file that merely describes a cell thousands of l_min across (a mutated coordinate or l_min) legitimately
+    // needs memory/time proportional to area / l_min^2 when the initial triangulation is on: not a malformed-input case
+    bool tri_maybe_on = true; { size_t p = xml.find("<perform_initial_triangulation>"); if (p != std::string::npos) { const char* q = xml.c_str() + p + 31; char* e = nullptr; long v = strtol(q, &e, 10); if (e != q && v == 0) tri_maybe_on = false; } }
+    if (tri_maybe_on) {
+        double lm = 0; { size_t p = xml.find("<min_edge_length>"); if (p != std::string::npos) lm = strtod(xml.c_str() + p + 17, nullptr); }
+        // lenient scan (like the reader's number regex): numeric prefixes of the tokens between POINTS and CELLS
+        // numbers as the reader's own lenient pattern finds them between the POINTS line and CELLS ("%e-06" is read as -6)
+        std::vector<double> pts; { size_t a = vtk.find("POINTS"), b = vtk.find("CELLS"); if (a != std::string::npos) { size_t nl = vtk.find('\n', a); if (nl != std::string::npos && (b == std::string::npos || nl < b)) { std::string sec = vtk.substr(nl, b == std::string::npos ? std::string::npos : b - nl); static const std::regex num(R"(([-\+]?[\d.]+(?:[e|E][-\+]?\d+)?))"); for (auto it = std::sregex_iterator(sec.begin(), sec.end(), num); it != std::sregex_iterator(); ++it) { double v = strtod(it->str().c_str(), nullptr); if (std::isfinite(v)) pts.push_back(v); } } } }
+        { size_t a = vtk.find("POINTS"); long np = a == std::string::npos ? 0 : strtol(vtk.c_str() + a + 6, nullptr, 10); if (np > 0 && pts.size() > (size_t)np * 3) pts.resize((size_t)np * 3); }   // the reader only uses the points that the faces can index
+        bool huge = false; double amax = 0; for (double v : pts) amax = std::max(amax, std::fabs(v));
+        if (lm > 0 && amax > 30 * lm && amax < 1e15 * lm) huge = true;
+        if (huge) { res.probes.hit("skipped_wellformed_but_huge_vs_lmin"); res.sim_iterations = 1; Fnv h; h.adds(vtk); h.adds(xml); res.fingerprint = h.h; res.nontrivial = false; return res; }
+    }
+    if (getenv("W17_DESC")) { fprintf(stderr, "W17 base=%d mutations: %s\n", b, desc.c_str()); fflush(stderr); }
     sim::begin_run(cfg);
     std::string outcome;
     try {
